@@ -311,7 +311,7 @@ Definition script_val (n len : N) (k : script_kind) : list term :=
   end.
 
 (** createManagerKeyScope: coin-type keys, account 0 "default", the keyless
-    "imported" account.  Name ids: 0 = "default" (7 bytes), 1 = "imported" (8). *)
+    "imported" account, the last-account row.  Name ids: 0 = "default" (7 bytes), 1 = "imported" (8). *)
 Definition imported_acct_info : acct_info :=
   {| ai_kind := ADefault (Const 0) (Const 0); ai_name := (1, 8); ai_ext := 0; ai_int := 0 |}.
 
@@ -319,7 +319,9 @@ Definition w_key_scope (s : scope) : list write :=
   [WPut (p_scope s) (kstr "ctpub") [Enc KCryptoPub (Clear (PCoinXpub s))];
    WPut (p_scope s) (kstr "ctpriv") [Enc KCryptoPriv (Clear (SCoinXprv s))]]
   ++ w_account s 0 (new_default_acct s 0 (0, 7))
-  ++ w_account s imported_acct imported_acct_info.
+  ++ w_account s imported_acct imported_acct_info
+  (* the default account is the last account of the new scope *)
+  ++ [WPut (p_scope s ++ [BMeta]) (kstr "lastaccount") [knum 0]].
 
 Definition default_scopes : list scope := [(49, 0); (84, 0); (86, 0); (44, 0)].
 
